@@ -22,6 +22,14 @@ ROT4 = [[(i + r) % 4 for i in range(4)] for r in range(4)]
 VSMALL = 1e-6  # the library's small-number guard, as documented (constants.VSMALL)
 
 
+def _tol(q: float, cond: float) -> float:
+    """allowed |implementation - model| for a quality value q whose worst arccos argument is `cond` = 1 - cos^2 away from
+    +-1: 1e-9 relative for the well-conditioned part, plus the rounding of the argument (~2e-13 with cancellation in the
+    differences of moved points) amplified by 1/sqrt(cond) and by the slope of the q_scale terms (<= 0.08*(|q|+20) per degree
+    -> folded into the constant), capped where the sqrt-amplified ulp at cos = +-1 itself ends (1e-7)"""
+    return 1e-9 * max(1.0, abs(q)) + (abs(q) + 20.0) * min(1e-7, 2e-13 / math.sqrt(cond + 1e-30))
+
+
 def _bits_to_float(s: str) -> float:
     return struct.unpack("d", struct.pack("Q", int(s)))[0]
 
@@ -98,7 +106,8 @@ class C14(core.Check):
         "different case dict."
     )
     assumptions = [
-        "implementation value vs model value G(Sig): 1e-9 relative (2e-6 when an arccos argument is within 1e-7 of +-1, "
+        "implementation value vs model value G(Sig): 1e-9*max(1,|q|) + (|q|+20)*min(1e-7, 2e-13/sqrt(cond)), cond = distance of the worst "
+        "arccos argument from +-1 (at least 2e-6 relative when an arccos argument is within 1e-7 of +-1, "
         "where the float evaluation of either side is ill-conditioned)",
         "oracle, rigid motion / renumbering: values equal within 2e-6*max(1,|q|) (float rounding of the transformed coordinates)",
         "oracle, scaling: exact clause on the implementation with the guard VSMALL patched to 0 (2e-6 relative); with the real "
@@ -502,23 +511,26 @@ class C14(core.Check):
             segs = model[0].split("|")
             if len(segs) != len(impl["steps"]):
                 return f"history: model answers {model[0][:80]}"
-            val = lambda t: None if t == "degenerate" else _bits_to_float(t)
+            def val(t):
+                v, _, c = t.partition(":")
+                return (None if v == "degenerate" else _bits_to_float(v)), (_bits_to_float(c) if c else 0.0)
+
             for k, (seg, st) in enumerate(zip(segs, impl["steps"])):
                 if "read" in st:
                     ms = [val(t) for t in seg.split(";")]
-                    for ci, (a, b) in enumerate(zip(st["read"], ms)):
-                        if (a == "degenerate") != (b is None) or (b is not None and not abs(a - b) <= 1e-8 * max(1.0, abs(a))):
+                    for ci, (a, (b, cond)) in enumerate(zip(st["read"], ms)):
+                        if (a == "degenerate") != (b is None) or (b is not None and not abs(a - b) <= _tol(a, cond)):
                             return (f"history step {k} (read) cell {ci}: the grid reports {a!r}, the model (= a fresh grid on the "
-                                    f"current points) {b!r}; history {case['hops'][:k + 1]}")
+                                    f"current points) {b!r} (cond {cond:.3g}); history {case['hops'][:k + 1]}")
                 elif "write" in st:
                     if seg != "W":
                         return f"history step {k}: model answers {seg[:40]} to a whole-array write"
                 else:
-                    b = val(seg[1:])
+                    b, cond = val(seg[1:])
                     a = st["ret"]
                     # half-way through a point-by-point rotation the cells are strongly twisted (arccos arguments near -1/1)
-                    rel = 2e-6 if case["tag"] == "history-rotate" else 1e-8
-                    if (a == "degenerate") != (b is None) or (b is not None and not abs(a - b) <= rel * max(1.0, abs(a))):
+                    if (a == "degenerate") != (b is None) or (
+                            b is not None and not abs(a - b) <= max(_tol(a, cond), (2e-6 if case["tag"] == "history-rotate" else 0.0) * max(1.0, abs(a)))):
                         return f"history step {k} {case['hops'][k]}: update returns {a!r}, model junction quality {b!r}"
             return None
         for k, (e, line) in enumerate(zip(impl["evals"], model)):
@@ -535,7 +547,7 @@ class C14(core.Check):
                     continue
                 mq, mq0, cond = m
                 rel = 1e-9 if cond >= 1e-7 else 2e-6
-                if not abs(qi - mq) <= rel * max(1.0, abs(qi)):
+                if not abs(qi - mq) <= max(rel * max(1.0, abs(qi)), _tol(qi, cond)):
                     return f"evaluation {k} cell {ci}: implementation quality {qi!r}, model G(Sig) {mq!r} (cond {cond:.3g})"
                 if q0i != "degenerate" and mq0 is not None:
                     if not abs(q0i - mq0) <= max(rel, 1e-8) * max(1.0, abs(q0i)):
